@@ -32,7 +32,7 @@ namespace {
 struct GClient { int c; std::string tr; bool alive = true; std::vector<JV> fetch_ids; bool owner_like = false; bool authed = false; };
 
 struct Gen {
-	double p_exact_size = 0.02; size_t elems_hint = 0; double p_nul = 0.004; std::map<std::string, double> last_num;
+	double p_exact_size = 0.04; size_t elems_hint = 0; double p_nul = 0.004; std::map<std::string, double> last_num;
 	Rng r; Plan p; uint64_t uid = 0; int next_client = 0; uint64_t idctr = 0, valctr = 0;
 	std::vector<GClient> cl;
 	std::vector<std::string> paths;
@@ -803,8 +803,13 @@ Plan gen_base(const std::string &profile, uint64_t seed, const JV &opts) {
 			Op &o = g.p.ops[i];
 			if (o.c < 0 || !faulty_cs.count(o.c)) continue;
 			if ((o.k == "connect" && o.a.getb("faulty")) || o.k == "stall" || o.k == "drain" || o.k == "wcap" || o.k == "sockerr") faulted.insert(o.c);
+			// (a request that was turned into a padded text of exactly the maximum size is looked at as the request it is)
+			if (o.k == "send" && o.a.has("text") && !o.a.has("msg")) { JV q; if (json_parse(o.a.gets("text"), q) && (q.t == JV::Obj || q.t == JV::Arr)) { for (size_t k = 0; k < o.a.o.size(); k++) if (o.a.o[k].first == "text") { o.a.o.erase(o.a.o.begin() + (long)k); break; } o.a.put("msg", q); } }
 			// once its send path is impaired a peer's own add may be aborted half way (some subscribers see add+remove, others nothing): not modelled, so it asks for something else
-			if (faulted.count(o.c) && o.k == "send" && o.a.has("msg") && o.a.get("msg")->t == JV::Obj && o.a.get("msg")->gets("method") == "add" && i > 3) {
+			// (plan order is not time order: a send that is spread over time lets a later stall take effect before the peer's following messages arrive, so every add of such a
+			// peer except the one of its set-up, id "xa<n>", is replaced - not only those behind the fault in the plan)
+			bool setup_add = o.k == "send" && o.a.has("msg") && o.a.get("msg")->t == JV::Obj && o.a.get("msg")->gets("id").compare(0, 2, "xa") == 0;
+			if (!setup_add && o.k == "send" && o.a.has("msg") && o.a.get("msg")->t == JV::Obj && o.a.get("msg")->gets("method") == "add" && i > 3) {
 				JV m = JV::obj(); const JV *id = o.a.get("msg")->get("id"); if (id) m.set("id", *id); m.set("method", JV::str("info")); m.set("params", JV::obj()); o.a.put("msg", m);
 			}
 			o.hold = false; if (i > 0) g.p.ops[i - 1].hold = false;
